@@ -103,6 +103,8 @@ func GetEncoding() *Encoding {
 type ChainOpts struct {
 	// Hasher configuration for the data module (nil = production hasher).
 	Hasher *HasherCfg
+	// ICA: the stub IBC world of C20 (nil = intertx not wired)
+	ICA *ICAWorld
 }
 
 // Chain is one node: the real application object graph over a SimDB.
@@ -354,6 +356,11 @@ func (c *Chain) BuildTx(msgs []sdk.Msg, gasLimit uint64) ([]byte, error) {
 func (c *Chain) DryRunGas(msgs []sdk.Msg) (gas uint64, ok bool) {
 	ctx := c.WorkCtx()
 	ok = true
+	if c.Opts.ICA != nil {
+		// the stub IBC world must not keep anything a dry run did
+		c.Opts.ICA.BeginTx()
+		defer c.Opts.ICA.EndTx(false)
+	}
 	defer func() {
 		if r := recover(); r != nil {
 			if IsCrash(r) {
